@@ -82,7 +82,7 @@ static std::string path_desc(const IdxPath& p) {
 static vf::Counter c_hist("histories"), c_ops("operations-checked"), c_map_create("op:CreateMap"), c_map_destroy("op:DestroyMap"), c_remove_tail_with_map("op:RemoveMember(tail)-while-map-exists"),
     c_remove_with_map("op:RemoveMember-while-map-exists"), c_erase_full("op:erase-full-or-empty-range"), c_grow0("op:growth-from-capacity-0"), c_move_sub("op:move-assign-from-own-subnode"),
     c_swap_sub("op:Swap-with-own-subnode"), c_copyfrom("op:CopyFrom"), c_dupkeys("histories-with-duplicate-keys(no-map)"), c_lookup("lookups-checked"), c_reserve_below("op:reserve-below-size"),
-    c_clear_reuse("op:Clear-then-reuse"), c_atptr("AtPointer-checked"), c_parsed_init("histories-starting-from-a-parsed-document"), c_small_chunk("histories-on-a-small-chunk-pool(64..1024 bytes)");
+    c_clear_reuse("op:Clear-then-reuse"), c_atptr("AtPointer-checked"), c_parsed_init("histories-starting-from-a-parsed-document"), c_small_chunk("histories-on-a-small-chunk-pool(64..1024 bytes)"), c_alias("op:argument-aliases-the-target(own element / own value / own bytes)");
 
 static JVal small_value(vf::Rng& r, int depth = 0) {
   switch (r.below(depth >= 2 ? 6 : 9)) {
@@ -317,7 +317,7 @@ struct Hist {
 
   // ---- one random operation; returns its name
   std::string step(Hist* side) {
-    unsigned op = (unsigned)r.below(24);
+    unsigned op = (unsigned)r.below(26);
     switch (op) {
       case 0: {  // set scalar
         IdxPath p = random_path(model, r);
@@ -614,6 +614,49 @@ struct Hist {
         invalidate_maps_below(a);
         invalidate_maps_below(b);
         return "move-assign";
+      }
+      case 23: {  // arguments that alias the container they go into: PushBack / AddMember of one of its own children (moved)
+        IdxPath p = random_path(model, r, r.coin() ? JVal::Arr : JVal::Obj);
+        JVal* m = model_at(model, p);
+        NodeT* n = node_at<NodeT>(doc, p);
+        if (m->k == JVal::Arr && !m->a.empty()) {
+          size_t i = r.below(m->a.size());
+          c_alias.add();
+          log("PushBack(" + path_desc(p) + ", move(own element " + std::to_string(i) + "))");
+          n->PushBack(std::move((*n)[i]), A());
+          JVal v = m->a[i];
+          m->a[i] = JVal::null();
+          m->a.push_back(v);
+          invalidate_maps_below(p);
+          return "PushBack(own element)";
+        }
+        if (m->k == JVal::Obj && !m->o.empty()) {
+          size_t i = r.below(m->o.size());
+          std::string k = fresh_key(*m);
+          c_alias.add();
+          log("AddMember(" + path_desc(p) + ", fresh key, move(value of own member " + std::to_string(i) + "))");
+          n->AddMember(StringView(k.data(), k.size()), std::move((n->MemberBegin() + i)->value), A());
+          JVal v = m->o[i].second;
+          m->o[i].second = JVal::null();
+          m->o.emplace_back(k, v);
+          invalidate_maps_below(p);
+          return "AddMember(own value)";
+        }
+        return "";
+      }
+      case 24: {  // SetString from the node's own bytes (view of itself, prefix, suffix)
+        IdxPath p = random_path(model, r);
+        JVal* m = model_at(model, p);
+        if (m->k != JVal::Str) return "";
+        NodeT* n = node_at<NodeT>(doc, p);
+        StringView sv = n->GetStringView();
+        size_t from = sv.size() ? r.below(sv.size() + 1) : 0, len = sv.size() - from;
+        if (r.coin()) { from = 0; len = sv.size(); }
+        c_alias.add();
+        log("SetString(" + path_desc(p) + ", own bytes [" + std::to_string(from) + ",+" + std::to_string(len) + "), alloc)");
+        n->SetString(sv.data() + from, len, A());
+        m->s = m->s.substr(from, len);
+        return "SetString(own bytes)";
       }
       default: {  // SetString variants on an existing node
         IdxPath p = random_path(model, r);
